@@ -19,11 +19,19 @@ confirmed = v.returncode == 0
 res = {"confirmed": confirmed, "verify": ver}
 if confirmed:
     t = time.time()
-    m = subprocess.run(["/verif/tools/mutant.sh", f"seed-{pid}", patch, pid, "quick"], capture_output=True, text=True)
+    import glob
+    slot = os.environ.get("SEED_SLOT")
+    if not slot:
+        slot = f"seed-{pid}"
+        for f in glob.glob("/verif/harness/chk-*/checks.json"):
+            t = json.load(open(f))
+            if pid in t:
+                slot = "seed-" + t[pid]["bin"]   # one scratch slot per check binary: incremental builds across seeds
+    m = subprocess.run(["/verif/tools/mutant.sh", slot, patch, pid, "quick"], capture_output=True, text=True)
     out = m.stdout
     rc = m.returncode
     vio = [l for l in out.splitlines() if l.startswith("VIOLATION")]
-    res["check"] = {"cmd": f"tools/mutant.sh seed-{pid} patch.diff {pid} quick", "exit": rc, "violation_lines": vio[:3], "wall_s": round(time.time() - t, 1),
+    res["check"] = {"cmd": f"tools/mutant.sh {slot} patch.diff {pid} quick", "exit": rc, "violation_lines": vio[:3], "wall_s": round(time.time() - t, 1),
                     "result_line": [l for l in out.splitlines() if l.startswith("RESULT")][-1:] }
     res["caught_by_quick"] = rc == 1 and bool(vio)
     print("CHECK exit", rc, vio[:1], out[-400:] if rc not in (0, 1) else "")
